@@ -386,6 +386,7 @@ y := { "a":1,"b":2,
 // that must stay attached to them
 var tailHeads = []string{
 	"f([1, 2, 3, 4, 5])", "a.foo([1, 2, 3, 4, 5])", "f({\"a\" : 1, \"b\" : 2, \"c\" : 3})", "a.b.c([1, 2, 3, 4, 5], 6)",
+	"data[pick([1, 2, 3, 4, 5])]", "data[{\"a\" : 1, \"b\" : 2, \"c\" : 3}]", "d.e[f([1, 2, 3, 4, 5], 1)]",
 	"f(1, [1, 2, 3, 4, 5, 6])", "f(func (p) {\n    return p\n})", "f([1, 2, 3, 4])", "f({\"a\" : 1, \"b\" : 2})", "f([[1, 2, 3, 4, 5]])",
 }
 var tailTails = []string{"[0]", ".k", "[0][1]", ".k.l", "(2)", "[0].k", " + 1", " == 2", ""}
